@@ -72,6 +72,32 @@ fx! {
 	c13q_fix_tup_none: (u8, u16), 4, false, 5; c13q_fix_arr_u8_none: [u8; 4], 8, false, 6;
 }
 
+/// "every type MARKED ConstEncodedLen encodes to exactly max_encoded_len()" must also hold for types that should not carry
+/// the marker at all: probe the marker (inherent-method-over-trait-method resolution) and, if it is there, hold the type to it.
+pub struct Probe<T>(pub core::marker::PhantomData<T>);
+impl<T: ConstEncodedLen> Probe<T> { pub fn is_marked(&self) -> bool { true } }
+pub trait NotMarked { fn is_marked(&self) -> bool { false } }
+impl<T> NotMarked for Probe<T> {}
+macro_rules! cel_probe {
+	($($name:ident: $t:ty, $n:literal, $u:literal;)*) => {$(
+		#[kani::proof] #[kani::unwind($u)]
+		pub fn $name() {
+			let marked = Probe::<$t>(core::marker::PhantomData).is_marked();
+			let v = <$t>::sym(0);
+			let mut b = Buf::<$n>::new();
+			v.encode_to(&mut b);
+			if marked { assert!(b.n == <$t as MaxEncodedLen>::max_encoded_len(), "a type carrying the ConstEncodedLen marker has values of different encoded lengths"); }
+			kani::cover!(true, "reach: end of harness");
+		}
+	)*};
+}
+cel_probe! {
+	c13q_celprobe_opt: Option<u8>, 4, 4; c13q_celprobe_arr_opt: [Option<u8>; 2], 8, 6; c13q_celprobe_arr_compact: [Compact<u32>; 2], 20, 19; c13q_celprobe_res: Result<u8, u32>, 8, 7;
+	c13q_celprobe_compact: Compact<u16>, 20, 19; c13q_celprobe_tup: (u8, Option<u16>), 8, 6; c13q_celprobe_box_opt: Box<Option<u32>>, 8, 7; c13q_celprobe_range_compact: Range<Compact<u8>>, 20, 19;
+	c13q_celprobe_nested: [[Option<bool>; 2]; 1], 8, 6; c13q_celprobe_u32: u32, 8, 6;
+}
+fx! { c13q_fix_duration: Duration, 16, false, 14; c13q_fix_optionbool: OptionBool, 4, false, 4; c13q_fix_nz: NonZeroU32, 8, false, 6; c13q_fix_unit: (), 4, false, 4; c13q_fix_range: Range<u16>, 8, false, 6; }
+
 /// negative twin: "Compact<u32> never exceeds 4 bytes" must FAIL
 #[kani::proof]
 #[kani::unwind(19)]
